@@ -10,8 +10,10 @@
 -/
 import UBidi.Lemmas.C10
 import UBidi.Lemmas.C01Base
+import UBidi.Lemmas.C02Sim
 namespace UBidi.Lemmas.C10
 open UBidi BidiClass
+open UBidi.Lemmas.C02 (widthAt widthAt_of_charAt iiStepW iiStep_eq)
 
 local instance : LawfulBEq BidiClass where
   eq_of_beq {a b} h := by cases a <;> cases b <;> first | rfl | cases h
@@ -61,10 +63,13 @@ structure Sim (off : Nat) (C : List BidiClass) (P : List ParaInfo) (F : List Fla
   flags : big.flags = F ++ small.flags
   err : big.err = orErr E small.err
 
-theorem sim_step (ds : DataSource) (enc : Enc) (split : Bool) (d : Option Nat)
+theorem sim_step (ds : DataSource) (T T' : Text) (henc : T'.enc = T.enc) (split : Bool) (d : Option Nat)
     (off : Nat) (C : List BidiClass) (P : List ParaInfo) (F : List Flags) (E : Option Panic) (hC : C.length = off)
-    (big small : IIState) (s : Seg) (hs : off ≤ s.start) (h : Sim off C P F E big small) :
-    Sim off C P F E (iiStep ds enc split d big s) (iiStep ds enc split d small { s with start := s.start - off }) := by
+    (big small : IIState) (s : Seg) (hs : off ≤ s.start) (h : Sim off C P F E big small)
+    (hw : ∀ k ∈ small.stack.head?, widthAt T (k + off) = widthAt T' k) :
+    Sim off C P F E (iiStep ds T split d big s) (iiStep ds T' split d small { s with start := s.start - off }) := by
+  rw [iiStep_eq, iiStep_eq, henc]
+  generalize T.enc = enc
   obtain ⟨h1, h2, h3, h4, h5, h6, h7, h8, h9⟩ := h
   obtain ⟨bcl, bstk, bps, bpl, bplt, bhi, bprs, bfl, ber⟩ := big
   obtain ⟨cl, stk, ps, pl, plt, hi, prs, fl, er⟩ := small
@@ -75,24 +80,50 @@ theorem sim_step (ds : DataSource) (enc : Enc) (split : Bool) (d : Option Nat)
   generalize hcls : ds.cls s.cp = cls
   cases stk with
   | nil =>
-    cases cls <;> cases split <;> simp [iiStep, hcls] <;> (try split) <;> constructor <;> simp <;> (try omega)
+    cases cls <;> cases split <;> simp [iiStepW, hcls] <;> (try split) <;> constructor <;> simp <;> (try omega)
   | cons a rest =>
+    have hwa : widthAt T (a + C.length) = widthAt T' a := hw a (by simp)
     cases cls <;> cases split <;>
-      simp [iiStep, hcls, getElem?_append_shift, setRange_append_right, orErr_assoc] <;>
+      simp [iiStepW, hcls, hwa, getElem?_append_shift, setRange_append_right, orErr_assoc] <;>
       (try split) <;> constructor <;> simp [le_shift] <;> (try omega)
 
+/-- the stack after a step holds old entries and possibly the start of the character read -/
+theorem iiStep_stack_mem (ds : DataSource) (T : Text) (split : Bool) (d : Option Nat) (st : IIState) (s : Seg) :
+    ∀ k ∈ (iiStep ds T split d st s).stack, k = s.start ∨ k ∈ st.stack := by
+  intro k hk
+  rw [C02.iiStep_stack] at hk
+  split at hk
+  · split at hk
+    · simp at hk
+    · exact Or.inr hk
+  · split at hk
+    · simpa using hk
+    · split at hk
+      · exact Or.inr (List.mem_of_mem_tail hk)
+      · exact Or.inr hk
 
-theorem sim_fold (ds : DataSource) (enc : Enc) (split : Bool) (d : Option Nat)
+theorem sim_fold (ds : DataSource) (T T' : Text) (henc : T'.enc = T.enc) (split : Bool) (d : Option Nat)
     (off : Nat) (C : List BidiClass) (P : List ParaInfo) (F : List Flags) (E : Option Panic) (hC : C.length = off)
-    (segs : List Seg) (hs : ∀ s ∈ segs, off ≤ s.start) (big small : IIState) (h : Sim off C P F E big small) :
-    Sim off C P F E (segs.foldl (iiStep ds enc split d) big)
-      ((segs.map (fun s => { s with start := s.start - off })).foldl (iiStep ds enc split d) small) := by
+    (segs : List Seg) (hs : ∀ s ∈ segs, off ≤ s.start)
+    (hws : ∀ s ∈ segs, widthAt T s.start = widthAt T' (s.start - off))
+    (big small : IIState) (h : Sim off C P F E big small)
+    (hw : ∀ k ∈ small.stack, widthAt T (k + off) = widthAt T' k) :
+    Sim off C P F E (segs.foldl (iiStep ds T split d) big)
+      ((segs.map (fun s => { s with start := s.start - off })).foldl (iiStep ds T' split d) small) := by
   induction segs generalizing big small with
   | nil => exact h
   | cons s ss ih =>
     simp only [List.foldl_cons, List.map_cons]
-    exact ih (fun x hx => hs x (by simp [hx])) _ _
-      (sim_step ds enc split d off C P F E hC big small s (hs s (by simp)) h)
+    refine ih (fun x hx => hs x (by simp [hx])) (fun x hx => hws x (by simp [hx])) _ _
+      (sim_step ds T T' henc split d off C P F E hC big small s (hs s (by simp)) h
+        (fun k hk => hw k (List.mem_of_mem_head? hk))) ?_
+    intro k hk
+    rcases iiStep_stack_mem ds T' split d small _ k hk with hk | hk
+    · have h1 := hs s (by simp)
+      have h2 := hws s (by simp)
+      simp only at hk
+      rw [hk, show s.start - off + off = s.start by omega]; exact h2
+    · exact hw k hk
 
 /-- the state right after a paragraph separator (or at the very beginning): nothing pending -/
 structure Fresh (d : Option Nat) (st : IIState) (pos : Nat) : Prop where
@@ -123,7 +154,7 @@ def finishII (len : Nat) (split : Bool) (st : IIState) : InitialOut :=
 
 theorem cii_eq (ds : DataSource) (t : Text) (d : Option Nat) (split : Bool) :
     computeInitialInfo ds t d split =
-      finishII t.len split (t.segs.foldl (iiStep ds t.enc split d) { paraLevel := d }) := rfl
+      finishII t.len split (t.segs.foldl (iiStep ds t split d) { paraLevel := d }) := rfl
 
 theorem segsFrom_append (pos e : Nat) (xs ys : List Seg) :
     SegsFrom pos (xs ++ ys) e ↔ ∃ m, SegsFrom pos xs m ∧ SegsFrom m ys e := by
@@ -172,41 +203,59 @@ theorem subrange_mid_WF (t : Text) (mid : List Seg) (a b : Nat) (hl : ∀ s ∈ 
     exact hl s' hs'
 
 
+/-- the width of a character of the whole text is its width in the text of its paragraph alone -/
+theorem widthAt_shift (T : Text) (enc : Enc) (segs : List Seg) (pos e : Nat) (hseg : SegsFrom pos segs e)
+    (hat : ∀ s ∈ segs, T.charAt s.start = some s) :
+    ∀ s ∈ segs, widthAt T s.start
+      = widthAt ⟨enc, e - pos, segs.map (fun s => { s with start := s.start - pos })⟩ (s.start - pos) := by
+  intro s hs
+  rw [widthAt_of_charAt (hat s hs)]
+  have h1 := segsFrom_shift pos e pos segs hseg (Nat.le_refl _)
+  have h2 := C02.segsFrom_find_start _ _ _ h1 { s with start := s.start - pos } (List.mem_map_of_mem hs)
+  have h3 : (⟨enc, e - pos, segs.map (fun s => { s with start := s.start - pos })⟩ : Text).charAt (s.start - pos)
+      = some { s with start := s.start - pos } := h2
+  rw [widthAt_of_charAt h3]
+
 /-- one paragraph that ends in a separator: the splitting scan, started fresh at `pos`, appends exactly what the
     non-splitting scan of the paragraph alone computes, and is fresh again afterwards -/
-theorem para_B (ds : DataSource) (enc : Enc) (d : Option Nat) (st : IIState) (pos pos2 : Nat)
+theorem para_B (ds : DataSource) (T : Text) (d : Option Nat) (st : IIState) (pos pos2 : Nat)
     (body : List Seg) (bseg : Seg) (hf : Fresh d st pos) (hseg : SegsFrom pos (body ++ [bseg]) pos2)
-    (hl : ∀ s ∈ body ++ [bseg], s.len = enc.charLen s.cp)
+    (hl : ∀ s ∈ body ++ [bseg], s.len = T.enc.charLen s.cp)
+    (hat : ∀ s ∈ body ++ [bseg], T.charAt s.start = some s)
     (hnb : ∀ s ∈ body, ds.cls s.cp ≠ B) (hb : ds.cls bseg.cp = B) :
-    let st2 := (body ++ [bseg]).foldl (iiStep ds enc true d) st
-    let o := computeInitialInfo ds ⟨enc, pos2 - pos, (body ++ [bseg]).map (fun s => { s with start := s.start - pos })⟩ d false
+    let st2 := (body ++ [bseg]).foldl (iiStep ds T true d) st
+    let o := computeInitialInfo ds ⟨T.enc, pos2 - pos, (body ++ [bseg]).map (fun s => { s with start := s.start - pos })⟩ d false
     Fresh d st2 pos2 ∧ st2.classes = st.classes ++ o.classes ∧
     st2.paras = st.paras ++ [{ start := pos, stop := pos2, level := o.lastLevel }] ∧
     st2.flags = st.flags ++ [{ pureLtr := o.lastPureLtr, hasIso := o.lastHasIso }] ∧
     st2.err = orErr st.err o.err ∧ o.classes.length = pos2 - pos := by
   intro st2 o
+  let T' : Text := ⟨T.enc, pos2 - pos, (body ++ [bseg]).map (fun s => { s with start := s.start - pos })⟩
   have hlen2 : st2.classes.length = pos2 :=
-    foldl_classes_length ds enc true d (body ++ [bseg]) st pos pos2 hseg hl hf.len
-  have hend : bseg.start + enc.charLen bseg.cp = pos2 := by
+    foldl_classes_length ds T true d (body ++ [bseg]) st pos pos2 hseg hl hf.len
+  have hend : bseg.start + T.enc.charLen bseg.cp = pos2 := by
     have := segsFrom_last _ _ _ _ hseg
     rw [hl bseg (by simp)] at this; exact this
   have hbnd := (segsFrom_bounds _ _ _ hseg).2
-  obtain ⟨e1, e2, e3, e4⟩ := foldl_noB ds enc d body st hnb
-  have hsim := sim_fold ds enc false d pos st.classes st.paras st.flags st.err hf.len body
-    (fun s hs => (hbnd s (by simp [hs])).1) st { paraLevel := d } hf.sim
-  have hst2 : st2 = iiStep ds enc true d (body.foldl (iiStep ds enc false d) st) bseg := by
+  obtain ⟨e1, e2, e3, e4⟩ := foldl_noB ds T d body st hnb
+  have hsim := sim_fold ds T T' rfl false d pos st.classes st.paras st.flags st.err hf.len body
+    (fun s hs => (hbnd s (by simp [hs])).1)
+    (fun s hs => widthAt_shift T T.enc (body ++ [bseg]) pos pos2 hseg hat s (by simp [hs]))
+    st { paraLevel := d } hf.sim (by simp)
+  have hst2 : st2 = iiStep ds T true d (body.foldl (iiStep ds T false d) st) bseg := by
     simp only [st2, List.foldl_append, List.foldl_cons, List.foldl_nil, e1]
   have ho : o = finishII (pos2 - pos) false
-      (iiStep ds enc false d ((body.map (fun s => { s with start := s.start - pos })).foldl
-        (iiStep ds enc false d) { paraLevel := d }) { bseg with start := bseg.start - pos }) := by
-    simp only [o, cii_eq, List.map_append, List.foldl_append, List.map_cons, List.map_nil,
+      (iiStep ds T' false d ((body.map (fun s => { s with start := s.start - pos })).foldl
+        (iiStep ds T' false d) { paraLevel := d }) { bseg with start := bseg.start - pos }) := by
+    simp only [o, cii_eq, T', List.map_append, List.foldl_append, List.map_cons, List.map_nil,
       List.foldl_cons, List.foldl_nil]
-  generalize body.foldl (iiStep ds enc false d) st = stA at *
+  generalize body.foldl (iiStep ds T false d) st = stA at *
   generalize (body.map (fun s => { s with start := s.start - pos })).foldl
-    (iiStep ds enc false d) { paraLevel := d } = sB at *
+    (iiStep ds T' false d) { paraLevel := d } = sB at *
   obtain ⟨s1, s2, s3, s4, s5, s6, s7, s8, s9⟩ := hsim
+  have hencT : T'.enc = T.enc := rfl
   have hcl : st2.classes = st.classes ++ o.classes := by
-    rw [hst2, ho]; simp [iiStep, hb, finishII, s1]
+    rw [hst2, ho]; simp [iiStep, hb, finishII, s1, hencT]
   refine ⟨⟨?_, ?_, hlen2, ?_, ?_, ?_⟩, hcl, ?_, ?_, ?_, ?_⟩
   · rw [hst2]; simp [iiStep, hb]
   · rw [hst2]; simp [iiStep, hb, hend]
@@ -223,28 +272,31 @@ theorem para_B (ds : DataSource) (enc : Enc) (d : Option Nat) (st : IIState) (po
 
 /-- the last paragraph (no separator): what the splitting scan adds at the end is what the non-splitting scan of
     the rest alone computes -/
-theorem para_last (ds : DataSource) (enc : Enc) (d : Option Nat) (st : IIState) (pos len : Nat)
+theorem para_last (ds : DataSource) (T : Text) (d : Option Nat) (st : IIState) (pos len : Nat)
     (segs : List Seg) (hf : Fresh d st pos) (hseg : SegsFrom pos segs len)
-    (hl : ∀ s ∈ segs, s.len = enc.charLen s.cp) (hnb : ∀ s ∈ segs, ds.cls s.cp ≠ B) :
-    let out := finishII len true (segs.foldl (iiStep ds enc true d) st)
-    let o := computeInitialInfo ds ⟨enc, len - pos, segs.map (fun s => { s with start := s.start - pos })⟩ d false
+    (hl : ∀ s ∈ segs, s.len = T.enc.charLen s.cp)
+    (hat : ∀ s ∈ segs, T.charAt s.start = some s) (hnb : ∀ s ∈ segs, ds.cls s.cp ≠ B) :
+    let out := finishII len true (segs.foldl (iiStep ds T true d) st)
+    let o := computeInitialInfo ds ⟨T.enc, len - pos, segs.map (fun s => { s with start := s.start - pos })⟩ d false
     out.classes = st.classes ++ o.classes ∧ out.err = orErr st.err o.err ∧ o.classes.length = len - pos ∧
     (pos < len → out.paras = st.paras ++ [{ start := pos, stop := len, level := o.lastLevel }] ∧
                  out.flags = st.flags ++ [{ pureLtr := o.lastPureLtr, hasIso := o.lastHasIso }]) ∧
     (¬ pos < len → out.paras = st.paras ∧ out.flags = st.flags) := by
   intro out o
-  have hlen2 := foldl_classes_length ds enc true d segs st pos len hseg hl hf.len
+  let T' : Text := ⟨T.enc, len - pos, segs.map (fun s => { s with start := s.start - pos })⟩
+  have hlen2 := foldl_classes_length ds T true d segs st pos len hseg hl hf.len
   have hbnd := (segsFrom_bounds _ _ _ hseg).2
-  obtain ⟨e1, e2, e3, e4⟩ := foldl_noB ds enc d segs st hnb
-  have hsim := sim_fold ds enc false d pos st.classes st.paras st.flags st.err hf.len segs
-    (fun s hs => (hbnd s hs).1) st { paraLevel := d } hf.sim
-  have hout : out = finishII len true (segs.foldl (iiStep ds enc false d) st) := by simp only [out, e1]
+  obtain ⟨e1, e2, e3, e4⟩ := foldl_noB ds T d segs st hnb
+  have hsim := sim_fold ds T T' rfl false d pos st.classes st.paras st.flags st.err hf.len segs
+    (fun s hs => (hbnd s hs).1) (widthAt_shift T T.enc segs pos len hseg hat)
+    st { paraLevel := d } hf.sim (by simp)
+  have hout : out = finishII len true (segs.foldl (iiStep ds T false d) st) := by simp only [out, e1]
   have ho : o = finishII (len - pos) false ((segs.map (fun s => { s with start := s.start - pos })).foldl
-        (iiStep ds enc false d) { paraLevel := d }) := by simp only [o, cii_eq]
+        (iiStep ds T' false d) { paraLevel := d }) := by simp only [o, cii_eq, T']
   rw [e1] at hlen2
-  generalize segs.foldl (iiStep ds enc false d) st = stA at *
+  generalize segs.foldl (iiStep ds T false d) st = stA at *
   generalize (segs.map (fun s => { s with start := s.start - pos })).foldl
-    (iiStep ds enc false d) { paraLevel := d } = sB at *
+    (iiStep ds T' false d) { paraLevel := d } = sB at *
   obtain ⟨s1, s2, s3, s4, s5, s6, s7, s8, s9⟩ := hsim
   have hcl : out.classes = st.classes ++ o.classes := by rw [hout, ho]; simp [finishII, s1]
   refine ⟨hcl, ?_, ?_, ?_, ?_⟩
@@ -306,29 +358,29 @@ def GoodPara (ds : DataSource) (t : Text) (d : Option Nat) (classes : List BidiC
 theorem paras_structure (ds : DataSource) (t : Text) (d : Option Nat) :
     ∀ n, ∀ pre segs : List Seg, segs.length ≤ n → t.segs = pre ++ segs →
     ∀ st pos, Fresh d st pos → SegsFrom 0 pre pos → SegsFrom pos segs t.len →
-    (∀ s ∈ segs, s.len = t.enc.charLen s.cp) →
+    (∀ s ∈ segs, s.len = t.enc.charLen s.cp) → (∀ s ∈ segs, t.charAt s.start = some s) →
     ∃ C' P' F' e',
-      (finishII t.len true (segs.foldl (iiStep ds t.enc true d) st)).classes = st.classes ++ C' ∧
-      (finishII t.len true (segs.foldl (iiStep ds t.enc true d) st)).paras = st.paras ++ P' ∧
-      (finishII t.len true (segs.foldl (iiStep ds t.enc true d) st)).flags = st.flags ++ F' ∧
-      (finishII t.len true (segs.foldl (iiStep ds t.enc true d) st)).err = orErr st.err e' ∧
+      (finishII t.len true (segs.foldl (iiStep ds t true d) st)).classes = st.classes ++ C' ∧
+      (finishII t.len true (segs.foldl (iiStep ds t true d) st)).paras = st.paras ++ P' ∧
+      (finishII t.len true (segs.foldl (iiStep ds t true d) st)).flags = st.flags ++ F' ∧
+      (finishII t.len true (segs.foldl (iiStep ds t true d) st)).err = orErr st.err e' ∧
       ((∀ p f, (p, f) ∈ P'.zip F' → (computeInitialInfo ds (t.subrange p.start p.stop) d false).err = none) → e' = none) ∧
-      ParasFrom (GoodPara ds t d (finishII t.len true (segs.foldl (iiStep ds t.enc true d) st)).classes
-        (finishII t.len true (segs.foldl (iiStep ds t.enc true d) st)).err) pos P' F' t.len := by
+      ParasFrom (GoodPara ds t d (finishII t.len true (segs.foldl (iiStep ds t true d) st)).classes
+        (finishII t.len true (segs.foldl (iiStep ds t true d) st)).err) pos P' F' t.len := by
   intro n
   induction n with
   | zero =>
-    intro pre segs hn hsegs st pos hf hpre hseg hl
+    intro pre segs hn hsegs st pos hf hpre hseg hl hat
     have : segs = [] := List.eq_nil_of_length_eq_zero (by omega)
     subst this
     simp only [SegsFrom] at hseg
     refine ⟨[], [], [], none, ?_, ?_, ?_, ?_, ?_, ?_⟩ <;>
       simp [finishII, hf.paraStart, hseg, orErr_none_right, ParasFrom]
   | succ n ih =>
-    intro pre segs hn hsegs st pos hf hpre hseg hl
+    intro pre segs hn hsegs st pos hf hpre hseg hl hat
     rcases split_first_B ds segs with hnb | ⟨body, bseg, rest, hsplit, hnb, hb⟩
     · -- the last paragraph
-      obtain ⟨c1, c2, c3, c4, c5⟩ := para_last ds t.enc d st pos t.len segs hf hseg hl hnb
+      obtain ⟨c1, c2, c3, c4, c5⟩ := para_last ds t d st pos t.len segs hf hseg hl hat hnb
       have hple := (segsFrom_bounds _ _ _ hseg).1
       by_cases hlt : pos < t.len
       · obtain ⟨c4a, c4b⟩ := c4 hlt
@@ -372,14 +424,19 @@ theorem paras_structure (ds : DataSource) (t : Text) (d : Option Nat) :
         rcases hs with h | h
         · exact Or.inl h
         · exact Or.inr (Or.inl h))
-      obtain ⟨b1, b2, b3, b4, b5, b6⟩ := para_B ds t.enc d st pos pos2 body bseg hf hseg1 hl1 hnb hb
-      have hfold : (body ++ bseg :: rest).foldl (iiStep ds t.enc true d) st =
-          rest.foldl (iiStep ds t.enc true d) ((body ++ [bseg]).foldl (iiStep ds t.enc true d) st) := by
+      have hat1 : ∀ s ∈ body ++ [bseg], t.charAt s.start = some s := fun s hs => hat s (by
+        simp only [List.mem_append, List.mem_cons, List.not_mem_nil, or_false] at hs ⊢
+        rcases hs with h | h
+        · exact Or.inl h
+        · exact Or.inr (Or.inl h))
+      obtain ⟨b1, b2, b3, b4, b5, b6⟩ := para_B ds t d st pos pos2 body bseg hf hseg1 hl1 hat1 hnb hb
+      have hfold : (body ++ bseg :: rest).foldl (iiStep ds t true d) st =
+          rest.foldl (iiStep ds t true d) ((body ++ [bseg]).foldl (iiStep ds t true d) st) := by
         simp [List.foldl_append]
       have hpre2 : SegsFrom 0 (pre ++ (body ++ [bseg])) pos2 := (segsFrom_append _ _ _ _).mpr ⟨pos, hpre, hseg1⟩
       obtain ⟨C2, P2, F2, e2, i1, i2, i3, i4, i6, i5⟩ :=
         ih (pre ++ (body ++ [bseg])) rest (by simp at hn; omega) (by simp [hsegs]) _ pos2 b1 hpre2 hseg2
-          (fun s hs => hl s (by simp [hs]))
+          (fun s hs => hl s (by simp [hs])) (fun s hs => hat s (by simp [hs]))
       rw [hfold]
       have hbnd := (segsFrom_bounds _ _ _ hseg1).2 bseg (by simp)
       have hsub := subrange_mid t pre (body ++ [bseg]) rest pos pos2 (by simp [hsegs]) hpre hseg1 hseg2
@@ -420,7 +477,7 @@ theorem paras_good (ds : DataSource) (t : Text) (hwf : t.WF) (d : Option Nat) :
       (computeInitialInfo ds t d true).err = none) := by
   obtain ⟨C', P', F', e', h1, h2, h3, h4, h6, h5⟩ :=
     paras_structure ds t d t.segs.length [] t.segs (Nat.le_refl _) rfl { paraLevel := d } 0 (fresh_init d)
-      (by simp [SegsFrom]) hwf.tiles hwf.lens
+      (by simp [SegsFrom]) hwf.tiles hwf.lens (C02.charAt_start t hwf)
   rw [← cii_eq] at h1 h2 h3 h4 h5
   simp only [List.nil_append] at h2 h3
   rw [h2, h3]
